@@ -247,6 +247,14 @@ def run(chk, replay=None):
             chk.note_drift("gate %s: call site and extracted automaton disagree on %r" % (gate, bytes(traces[int(i)]["ev"][0]["b"])[:40]))
         chk.sample({"gate": gate, "impl_dfa_states": impl["n"], "byte_classes": len(cls), "example_string": list(sorted(strings)[len(strings) // 2][:20])})
     chk.exhaustive = True
+    # the field-line gate is applied to whole lines AFTER continuation lines were joined: what a continuation line
+    # carries reaches no gate of its own.  Near-misses of obs-fold through the real parser, judged by Framing.tla
+    from checks import framing_common as fc
+    from checks import framing_gen as fg
+    follow = fg.msg(target=b"/next", headers=[fg.HOST])
+    fold = [(n, m) for n, m in fg.framing_variants() if "fold" in n]
+    items = [(n, m + follow, {"maxh": 262144, "maxb": 1073741824}, "sampled", chk.seed + i) for i, (n, m) in enumerate(fold)]
+    fc.execute(chk, "C10", fc.C01, items, label="fold")
     chk.rule = ("per gate: (1) TLC exhausts the product of the implementation automaton (extracted from the compiled pattern + call-site processing), the call-site domain automaton and the grammar automaton over all 256 bytes - language inclusion both ways for every length; "
                 "(2) every byte string up to length %d over the class representatives, all single-byte insertions/replacements in valid sentences and pumped sentences are run through the REAL call site and judged by TLC against the grammar; non-trivial = strings of length >= 2" % maxlen)
     chk.assumptions += ["`$` is modelled as end-of-input or before one final LF; the extractor is validated on every run against the real call site (disagreement = drift)",
